@@ -38,6 +38,11 @@ type iscenario struct {
 	// ClockStepBy > 0: the wall clock the resolver reads jumps forward by that many seconds (the machine was suspended, the
 	// process was stopped, the clock was set) at a point of the schedule the explorer chooses: after ClockStepAt virtual seconds,
 	// between any two steps of the other threads. All times the monitors use are readings of that same clock.
+	// CacheOffAt >= 1 (value = 1 + seconds): the application switches the cache OFF (SetCacheSize(0)) at that virtual time, while
+	// lookups may be outstanding, and on again (SetCacheSize(64)) one second later. A lookup that is under way finishes with the
+	// cache it started with; nothing panics. (After a switch the cache is legitimately empty: the redundant-query monitor is
+	// not applied to these scenarios.)
+	CacheOffAt  int `json:"cache_off_at_s_plus_1,omitempty"`
 	ClockStepBy int `json:"clock_steps_forward_by_s,omitempty"`
 	ClockStepAt int `json:"clock_step_after_s,omitempty"`
 }
@@ -158,6 +163,17 @@ func runInterOpt(sc iscenario, choose vs.Chooser, traceOn bool) (ups []upstream,
 		})
 		defer restore()
 		res, _ := ech.NewResolver("https://doh.test/dns-query")
+		if sc.CacheOffAt > 0 {
+			vs.GoNamed("cache-switch", func() {
+				if sc.CacheOffAt > 1 {
+					vs.Sleep(time.Duration(sc.CacheOffAt-1) * time.Second)
+				}
+				vs.Yield("SetCacheSize(0)")
+				res.SetCacheSize(0)
+				vs.Sleep(time.Second)
+				res.SetCacheSize(64)
+			})
+		}
 		if sc.ClockStepBy > 0 {
 			vs.GoNamed("clock", func() {
 				if sc.ClockStepAt > 0 {
@@ -209,8 +225,8 @@ func runInterOpt(sc iscenario, choose vs.Chooser, traceOn bool) (ups []upstream,
 	// An answer's lifetime starts when the resolver takes it over: at the first clock reading its thread makes after the answer
 	// arrived (the same instant unless the clock stepped in between).
 	for i := range ups {
-		if ups[i].failed {
-			continue // nothing is taken over
+		if ups[i].failed || sc.ClockStepBy == 0 {
+			continue // nothing is taken over / the clock only moves with virtual time: the answer's own instant is the stamp
 		}
 		for _, cr := range reads {
 			if cr.thread == ups[i].thread && cr.seq > ups[i].seq {
@@ -236,6 +252,9 @@ func monitorInter(sc iscenario, ups []upstream, looks []lookup, s *vs.Sched) (ke
 	// obtained, while that answer is still within its smallest TTL, must not send an upstream query for that key.
 	// (Lookups that began before the answer existed may legitimately fetch it themselves: concurrent first lookups.)
 	for _, q := range ups {
+		if sc.CacheOffAt > 0 {
+			break // the cache was emptied on purpose
+		}
 		var call *lookup
 		for i := range looks {
 			if looks[i].vthread == q.thread && looks[i].start <= q.started && q.at <= looks[i].end {
@@ -395,6 +414,14 @@ func interScenarios(thorough bool) []iscenario {
 	// started meanwhile fails - and the one good answer is what later lookups get
 	out = append(out, iscenario{Threads: [][]istep{{{0, "n1.example"}}, {{0, "n1.example"}, {1, "n1.example"}}, {{1, "n1.example"}}}, Latency: 1, FailFrom: -1, FailClients: []int{0, 2}})
 	out = append(out, iscenario{Threads: [][]istep{{{0, "n1.example"}}, {{0, "n1.example"}, {1, "n1.example"}}, {{0, "n1.example"}}}, Latency: 1, FailFrom: -1, FailClients: []int{0, 2}})
+	// the application switches the cache off and on again while lookups are outstanding (upstream latency 1 s)
+	for _, th := range [][][]istep{{progs[0]}, {progs[0], progs[0]}, {progs[1], progs[4]}} {
+		for _, at := range []int{1, 2} {
+			for _, fail := range [][2]int{{-1, 0}, {0, 2}} {
+				out = append(out, iscenario{Threads: th, Latency: 1, FailFrom: fail[0], FailTo: fail[1], CacheOffAt: at})
+			}
+		}
+	}
 	// the clock steps forward by 10 s (longer than every TTL but one) at a point the explorer chooses
 	for _, th := range [][][]istep{{progs[0], progs[0]}, {progs[0], progs[1]}, {progs[1], progs[4]}} {
 		for _, lat := range []int{0, 1} {
